@@ -30,6 +30,7 @@ type Config struct {
 	MaxModelsPerSite int
 	Deadline     time.Time
 	Tier         int
+	CexSamples   int
 }
 
 // ----- path termination sentinels (Go panics unwinding the interpreter)
@@ -63,6 +64,7 @@ type Finding struct {
 	Observe map[string]string `json:"observe,omitempty"`
 	Stack   []string          `json:"stack,omitempty"`
 	Region  string            `json:"region,omitempty"`
+	Alt     []map[string]string `json:"alt,omitempty"`
 	PathID  int               `json:"path"`
 	Count   int               `json:"count"`
 }
@@ -597,6 +599,9 @@ func (in *Interp) report(kind, site, class, msg string, wantModel bool) {
 			for k, v := range in.observe {
 				f.Observe[k] = v
 			}
+			if kind == "assert" && in.Cfg.CexSamples > 0 {
+				f.Alt = in.altModels(in.Cfg.CexSamples)
+			}
 		}
 	}
 	in.Sh.mu.Lock()
@@ -609,6 +614,54 @@ func (in *Interp) report(kind, site, class, msg string, wantModel bool) {
 		in.Sh.Findings[key] = f
 	}
 	in.Sh.mu.Unlock()
+}
+
+// altModels proposes further models of the current path condition, spread over
+// the value ranges of the widest integer inputs (bucketed), so that a
+// counterexample of the relaxed encoding that is spurious at one point can be
+// confirmed natively at another. Every candidate is a solver model.
+func (in *Interp) altModels(k int) []map[string]string {
+	type cand struct {
+		iv   inputVar
+		span *big.Int
+	}
+	var cs []cand
+	for _, iv := range in.inputs {
+		t := iv.T
+		if t.Sort != sym.SInt || t.Lo == nil || t.Hi == nil {
+			continue
+		}
+		span := new(big.Int).Sub(t.Hi, t.Lo)
+		if span.Cmp(big.NewInt(int64(4*k))) < 0 {
+			continue
+		}
+		cs = append(cs, cand{iv, span})
+	}
+	sort.Slice(cs, func(i, j int) bool { return cs[i].span.Cmp(cs[j].span) > 0 })
+	if len(cs) > 2 {
+		cs = cs[:2]
+	}
+	var out []map[string]string
+	save := in.pc
+	defer func() { in.pc = save }()
+	rng := uint64(in.Cfg.Seed)*2654435761 + 12345
+	for _, c := range cs {
+		t := c.iv.T
+		step := new(big.Int).Div(c.span, big.NewInt(int64(k)))
+		for j := 0; j < k; j++ {
+			lo := new(big.Int).Add(t.Lo, new(big.Int).Mul(step, big.NewInt(int64(j))))
+			hi := new(big.Int).Add(lo, step)
+			// solvers return interval end points; start each bucket at a seeded pseudo-random point
+			rng = rng*6364136223846793005 + 1442695040888963407
+			frac := new(big.Int).Mul(step, big.NewInt(int64(rng>>40)))
+			lo = new(big.Int).Add(lo, frac.Rsh(frac, 24))
+			in.pc = append(append([]*sym.Term{}, save...), in.B.And(in.B.Le(in.B.Int(lo), t), in.B.Le(t, in.B.Int(hi))))
+			if m, ok := in.model(); ok {
+				out = append(out, m)
+			}
+		}
+	}
+	return out
 }
 
 func (in *Interp) noteUnsafeOOB(o *Obj, off, sz int) {
